@@ -484,11 +484,13 @@ GENERIC = {
     "C02": dict(
         rule="one-rule lexers for regex syntax trees: bounded-exhaustive (all 3815 trees with <= 2 operators over the atoms a, b, [a-b], [a-c], _, \"ab\", $$ascii_lowercase; thorough runs all, quick a seeded sample) plus random 3-operator and larger trees incl. `#`, each paired with a language-preserving rewrite (r+ = r r*, a|b = b|a, string = concatenation of its characters, r* = (r+)?) compiled as a second lexer; every string up to length 5-7 over {a,b,c,d,foreign}; oracle: derivative matcher cross-checked with a denotational matcher, and pairwise equality of the partner lexers. Non-trivial = distinct definitions with at least one operator.",
         nt="nt_C02_cases",
+        thorough_scale=1,
         parts=[("langx", "equiv", 320, 4800, 20, LANG_Q, LANG_T), ("lang", "equiv", 120, 1600, 20, LANG_Q, LANG_T)],
     ),
     "C16": dict(
         rule="regex trees over {a, b, [a-b], [b-c], _} with * + ? concatenation | and # (bounded-exhaustive: all 2085 trees with <= 2 operators, plus random trees with 3-6 operators) and multi-rule-set definitions with top-level and rule-set-local lets (the same local name bound differently in different rule sets); every definition is printed four ways (fewest parentheses the documented grammar allows, fully parenthesised, redundant parentheses, subtrees named with let) and each printing compiled through the real macro; all printings must agree with the reference matcher on the TREE (which never passes through a parser) and with each other. Non-trivial = (definition, wrong grammar) pairs in which the minimal printing, read by a WRONG grammar (postfix tighter than #, | tighter than concatenation, # right-associative, postfix applying to the whole preceding concatenation), is rejected or denotes a language that some input of the run separates from the tree's language - i.e. cases in which the run would notice that mis-reading.",
         nt="nt_C16",
+        thorough_scale=1,
         parts=[("precx", "print", 240, 3200, 10, LANG_Q, LANG_T), ("scope", "print", 60, 600, 10, SMALL, BIG), ("mixed", "print", 40, 600, 10, SMALL, BIG)],
     ),
     # prop: (rule text, nontrivial counter, [ (family, mode, quick_n, thorough_n, per_bin, quick_env, thorough_env) ], min_nontrivial)
@@ -561,7 +563,7 @@ def run_generic(root, prop, tier, seed, res, cfg=None, extra_props=()):
     eng.prepare()
     for (family, mode, qn, tn, per_bin, qenv, tenv) in cfg["parts"]:
         # VP_SCALE multiplies the number of definitions (default: quick x1.5, thorough x2)
-        scale = float(os.environ.get("VP_SCALE", str(cfg.get("quick_scale", 1.5)) if tier == "quick" else "2"))
+        scale = float(os.environ.get("VP_SCALE", str(cfg.get("quick_scale", 1.5)) if tier == "quick" else str(cfg.get("thorough_scale", 2))))
         n = int((qn if tier == "quick" else tn) * scale)
         n = max(per_bin, (n // per_bin) * per_bin)
         penv = qenv if tier == "quick" else tenv
